@@ -9,6 +9,9 @@ def run(m, tier):
     results.append(rr.rule_splitquote(m, "C05.R7"))
     results.append(rr.rule_fixed_continuation(m, "C05.R9"))
     results.append(rr.rule_inline_table(m, "C05.R10"))
+    from rules import order_rules
+    results.append(order_rules.memo_purity_rule(m, "C05.R11", ("fparser.common.sourceinfo", "fparser.common.readfortran", "fparser.common.splitline"),
+                                               ("format-detection and reading", "the source form is decided from the content read now, not from what the same file name held before"), 70))
     expl = ("Decides structural clauses of C05 by bounded-exhaustive evaluation of the pure string predicates of the reader, interpreted "
             "from their AST (never imported): the form detector (voting expression + regex literal) votes free for no label field, "
             "comment line or fixed-form continuation line and for every statement starting in columns 1-5 / trailing '&'; "
